@@ -525,6 +525,14 @@ impl VersionSet {
                     }
                 }
 
+                if !created_new_manifest_file {
+                    // The failed append may have left a partial record at the end of the manifest.
+                    // Never append after it: the next change starts a new manifest file (with a
+                    // full snapshot) under a new file number.
+                    version_set.maybe_manifest_file = None;
+                    version_set.manifest_file_number = version_set.get_new_file_number();
+                }
+
                 // The new version was not installed. Callers must learn about that: they keep the
                 // immutable memtable, do not delete files and record the background error.
                 return Err(error);
